@@ -128,6 +128,27 @@ def plan(tier, seed):
                       "events": nm, "seed": seed,
                       "profile": {"x64": True}, "part": mode,
                       "weight": 3 if tr == "T2" else 1})
+  # pmap over 2 (thorough: also 4) devices: the statistics are dealt out to
+  # the devices for the root computation and gathered back, so every
+  # structural option (number/size of statistics) is replayed in that mode
+  # on the tree with the most statistics
+  structural = ("block_size", "best_effort_shape_interpretation",
+                "merge_small_dims_block_size", "precondtioner_type",
+                "skip_preconditioning_rank_lt",
+                "skip_preconditioning_dim_size_gt", "exponent_override",
+                "eigh", "preconditioning_compute_steps")
+  for c in cfgs:
+    if len(c) > 1 and c not in PAIRS:
+      continue
+    if c and not (set(c) & set(structural)):
+      continue
+    for D in ([2] if tier == "quick" else [2, 4]):
+      tasks.append({"name": "%s|T2|pmap%d" % (cfg_name(c), D), "cfg": c,
+                    "tree": "T2", "mode": "pmap", "ndev": D,
+                    "depth": 3 if tier == "quick" else 4,
+                    "events": names, "seed": seed,
+                    "profile": {"x64": True, "devices": D}, "part": "pmap",
+                    "weight": 4})
   if tier != "quick":
     for c in [{}, {"beta2": 1.0}, {"precondtioner_type": 2,
                                     "best_effort_shape_interpretation": False}]:
@@ -140,7 +161,8 @@ def plan(tier, seed):
       "tasks": tasks,
       "rule": "every configuration within %d deviation(s) of the base "
               "configuration over %d arithmetic options (+%d interacting "
-              "pairs) x trees x {replicated, sharded} x all gradient "
+              "pairs) x trees x {replicated, sharded; structural options "
+              "also under pmap over 2 (4) devices} x all gradient "
               "histories up to depth %d; state = (optimizer state, reference "
               "state) bit-exact; non-trivial = transition at or after the "
               "start-preconditioning step of a preconditioned leaf" %
@@ -194,7 +216,7 @@ def run_task(task):
     must still be the documented one."""
     for c in neighbours():
       try:
-        br = ds.Runner(c, shapes, mode)
+        br = ds.Runner(c, shapes, mode, ndev=task.get("ndev", 1))
         bs = br.init()
         acc.transitions += 1
         if tag == "after":
@@ -223,7 +245,7 @@ def run_task(task):
 
   neighbour_probe("before")
   try:
-    runner = ds.Runner(cfg, shapes, mode)
+    runner = ds.Runner(cfg, shapes, mode, ndev=task.get("ndev", 1))
     s0 = runner.init()
   except Exception as e:  # pylint: disable=broad-except
     acc.violation("C02|%s|init" % task["name"], "construction/init raised "
